@@ -42,6 +42,9 @@ EXTRA = [
     ("x=0\ny=0\nwhile true:\n  if x == 0:\n    if y == 0:\n      if x + y == 0:\n        x = 1\n      else:\n        y = 2\n      end\n"
      "      y = y + 1\n    end\n    x = x + 1\n  elif !(!(y == 1)):\n    y = 0\n    x = 0\n  end\n  if !(x == 1 && y == 1):\n    x = y\n  end\nend\n", {}),
     ("u=0\nv=0\nwhile true:\n  u = Bernoulli(1/2)\n  if u == 1:\n    v = DiscreteUniform(1, 3)\n    u = v\n  else:\n    v = v + u\n  end\nend\n", {}),
+    # auxiliary flag must survive DistTransformer's rewriting of a draw with variable parameters (_t0 = _u + y unconditional)
+    ("c=0\nx=0\ny=0\nwhile true:\n  c = Bernoulli(1/2)\n  if c == 1:\n    x, y = Normal(y, 1), x\n  end\nend\n", {}),
+    ("c=0\nx=0\ny=0\nwhile true:\n  c = Bernoulli(1/2)\n  if c == 1:\n    x, y = DiscreteUniform(1,3), x + 1 {1/2} x\n  end\nend\n", {}),
 ]
 OLD = re.compile(r"^_old(\d+)$")
 
